@@ -84,6 +84,31 @@ Tokens(p) ==
   ELSE LET h == Head(p) IN
        (IF "b" \in DOMAIN h THEN <<[br |-> 1]>> \o Tokens(h.b) \o <<[br |-> 0]>> ELSE <<h>>) \o Tokens(Tail(p))
 
+(* The same token sequence computed in ONE left-to-right pass over the genome (a third, independent   *)
+(* definition; `StreamAgrees` below: it is Tokens(Parse(g)) on every genome of the model).  Its state *)
+(* is only the stack of blocks still owed by the instructions of the open blocks, innermost first,    *)
+(* so it can be evaluated on genomes of tens of thousands of genes, which the recursive descent       *)
+(* (quadratic in TLC) cannot in reasonable time.                                                      *)
+CloseToks(st) == IF st[1] > 0 THEN <<[br |-> 0], [br |-> 1]>> ELSE <<[br |-> 0]>>
+CloseStack(st) == IF st[1] > 0 THEN <<st[1] - 1>> \o Tail(st) ELSE Tail(st)
+(* one gene: s = [st |-> stack of owed blocks, acc |-> tokens so far] *)
+TokStep(x, s) ==
+  IF IsClose(x)
+    THEN IF s.st = <<>> THEN s ELSE [st |-> CloseStack(s.st), acc |-> s.acc \o CloseToks(s.st)]
+    ELSE IF x.o > 0 THEN [st |-> <<x.o - 1>> \o s.st, acc |-> s.acc \o <<ItemI(x), [br |-> 1]>>]
+                    ELSE [st |-> s.st, acc |-> Append(s.acc, ItemI(x))]
+(* the genes lo..hi in order, by halving the range: the recursion is only log2(hi - lo) deep (a recursion *)
+(* as deep as the genome is long costs TLC minutes on 16 000 genes)                                      *)
+RECURSIVE TokRange(_, _, _, _)
+TokRange(g, lo, hi, s) ==
+  IF lo > hi THEN s
+  ELSE IF lo = hi THEN TokStep(g[lo], s)
+  ELSE LET mid == (lo + hi) \div 2 IN TokRange(g, mid + 1, hi, TokRange(g, lo, mid, s))
+(* the end of the genome closes what is still open *)
+RECURSIVE TokEnd(_)
+TokEnd(s) == IF s.st = <<>> THEN s.acc ELSE TokEnd([st |-> CloseStack(s.st), acc |-> s.acc \o CloseToks(s.st)])
+TokStream(g) == TokEnd(TokRange(g, 1, Len(g), [st |-> <<>>, acc |-> <<>>]))
+
 RECURSIVE Flatten(_)
 Flatten(p) ==
   IF p = <<>> THEN <<>>
@@ -174,6 +199,7 @@ SMResult == open[1].items
 (* Properties checked by TLC on every genome of the model.                  *)
 Total          == done => Len(open) = 1
 Agree          == done => SMResult = Parse(genome)
+StreamAgrees   == done => TokStream(genome) = Tokens(Parse(genome))
 OrderPreserved == done => Flatten(SMResult) = Instrs(genome)
 Structured     == done => WellFormed(SMResult)
 (* the printed genome shows the structure the translation builds *)
